@@ -26,7 +26,7 @@ class SpinModel(Model):
 
     def __init__(self, seed):
         super().__init__(ORBS, seed=seed, braket={"V": 1, "f": 1},
-                         spin_conserving={"V", "t1", "t2"})
+                         spin_conserving={"V", "t1", "t2", "f"})
 
 
 class SpinFreeModel(Model):
@@ -65,11 +65,12 @@ class SpinFreeModel(Model):
 def build(case):
     idx = {n: get_symbols(n)[0] for n in OCC + VIRT}
     fs = []
-    for kind, names in case["objs"]:
+    for kind, names, *rest in case["objs"]:
         t = tuple(idx[n] for n in names)
         h = len(t) // 2
         if kind == "V":
-            fs.append(AntiSymmetricTensor("V", t[:2], t[2:], 1))
+            # (exponent 2: <ij||ab> and <ab||ij> merge in a real orbital basis)
+            fs.append(AntiSymmetricTensor("V", t[:2], t[2:], 1) ** (rest[0] if rest else 1))
         elif kind == "t":
             fs.append(Amplitude(f"t{1 if len(t) == 4 else 2}", t[:h], t[h:]))
         elif kind == "f":
@@ -88,6 +89,8 @@ def gen_cases(tier, seed):
     yield {"objs": [["f", ["i", "i"]]], "target": "", "spin": ""}
     yield {"objs": [["X", ["i", "a"]]], "target": "ia", "spin": "ab"}
     yield {"objs": [["V", ["i", "j", "a", "b"]], ["t", ["a", "b", "i", "j"]]], "target": "", "spin": ""}
+    yield {"objs": [["V", ["i", "j", "a", "b"], 2]], "target": "", "spin": "", "expand": True}
+    yield {"objs": [["V", ["i", "j", "a", "b"], 2]], "target": "ia", "spin": "ab", "expand": True}
     for _ in range(120 if tier == "quick" else 2500):
         names = rng.sample(OCC, 3) + rng.sample(VIRT, 3)
         i, j, k, a, b, c = names
@@ -95,7 +98,7 @@ def gen_cases(tier, seed):
         for _o in range(rng.randint(1, 3)):
             kind = rng.choice(["V", "t", "f", "X", "X", "d"])
             if kind == "V":
-                objs.append(["V", rng.sample(names, 4)])
+                objs.append(["V", rng.sample(names, 4), rng.choice([1, 1, 1, 2])])
             elif kind == "t":
                 objs.append(["t", rng.sample([a, b, c], 2) + rng.sample([i, j, k], 2)]
                             if rng.random() < 0.6 else ["t", [rng.choice([a, b]), rng.choice([i, j])]])
@@ -106,7 +109,9 @@ def gen_cases(tier, seed):
             else:
                 objs.append(["X", rng.sample(names, rng.randint(1, 2))])
         yield {"objs": objs, "tseed": rng.randint(0, 10 ** 6),
-               "pref": [rng.choice([1, -1, 2]), rng.choice([1, 2])]}
+               "pref": [rng.choice([1, -1, 2]), rng.choice([1, 2])],
+               # also through transform_to_spatial_orbitals with expanded ERI
+               "expand": rng.random() < 0.4}
 
 
 def targets_of(case, idx, term):
@@ -135,8 +140,13 @@ def check(case):
     tstr = "".join(s.name for s in targets)
     if sorted(s.name for s in e.terms[0].target) != sorted(tstr):
         return True, "targets do not match the term"
-    model = SpinModel(3)
-    res = integrate_spin(e, tstr, spins)
+    # with expanded ERI the antisymmetric integrals have to be the
+    # antisymmetrised Coulomb integrals
+    model = SpinFreeModel(ORBS, seed=12, spin_conserving={"t1", "t2"}) if case.get("expand") else SpinModel(3)
+    if case.get("expand"):
+        res = transform_to_spatial_orbitals(e, tstr, spins, restricted=False, expand_eri=True)
+    else:
+        res = integrate_spin(e, tstr, spins)
     res_targets = get_symbols(tstr, spins) if tstr else []
     for combo in itertools.product(SPATIAL, repeat=len(targets)):
         if any(c[0] != ("o" if s.space == "occ" else "v") for c, s in zip(combo, targets)):
@@ -151,7 +161,7 @@ def check(case):
             return False, (f"integrate_spin({e}, '{tstr}', '{spins}') = {res}: value {v1}, "
                            f"spin orbital expression on the requested spins {v0} at {combo}")
     # allowed spin blocks of the expression: unreported blocks vanish
-    tabulated = all(k in ("V", "t", "d") for k, _ in case["objs"])
+    tabulated = all(o[0] in ("V", "t", "d") for o in case["objs"])
     if tstr and tabulated:
         allowed = allowed_spin_blocks(e, tstr)
         for block in ("".join(b) for b in itertools.product("ab", repeat=len(targets))):
@@ -172,7 +182,7 @@ def restricted_cases(tier, seed):
     rng = random.Random(seed + 5)
     for _ in range(40 if tier == "quick" else 600):
         names = rng.sample(OCC, 3) + rng.sample(VIRT, 3)
-        objs = [["V", rng.sample(names, 4)]]
+        objs = [["V", rng.sample(names, 4), rng.choice([1, 1, 2])]]
         if rng.random() < 0.6:
             objs.append(rng.choice([["V", rng.sample(names, 4)], ["f", rng.sample(names, 2)]]))
         # (without expansion the antisymmetric ERI has spin dependent blocks:
